@@ -25,7 +25,7 @@ W = dict(once=0.75, nick=0.6, ref=0.3, formula=0.4, nested=0.06, friend=0.3, fwd
 
 
 DIRECTED6 = [S.stream_once_cluster, S.stream_once_hidden, S.stream_randref_nicks, S.stream_once_cluster_randref, S.stream_once_cluster_randref, S.stream_once_same_table_nick_order, S.stream_once_same_table_nick_order, S.stream_history_rows_hold_once_refs,
-                                S.stream_once_nick_like_once_table, S.stream_once_nick_like_once_table, S.stream_randref_hidden_child, S.stream_once_idle_first, S.stream_once_after_lookup]
+                                S.stream_once_nick_like_once_table, S.stream_once_nick_like_once_table, S.stream_randref_hidden_child, S.stream_once_idle_first, S.stream_once_after_lookup, S.stream_once_holds_forward_ref]
 
 
 def gen_case(rng, stream=None):
@@ -47,7 +47,7 @@ def gen_case(rng, stream=None):
     r["stmts"].append(["obj", {"table": MARK, "nick": None, "count": None, "once": False, "fields": [], "friends": []}])
     k = rng.choice([2, 2, 3, 4, 5])
     ks = [k]
-    if rng.random() < 0.7:
+    if rng.random() < 0.7 and not r.get("single_run"):
         cut = sorted(rng.sample(range(1, k), rng.randint(1, k - 1)))
         ks = [b - a for a, b in zip([0] + cut, cut + [k])]
     return {"recipe": r, "ks": ks, "features": feats}
@@ -94,6 +94,13 @@ def oracle(case, obs):
         if "err" in r:
             if r["err"] != "DGE":
                 return f"internal-error: {r['err']}: {r.get('msg','')[:120]}"
+            if "once_holds_forward_ref" in case.get("features", ()):
+                # the rows written before the failure: a failure after the first iteration's marker row means the
+                # first iteration completed and a LATER use of the just_once row (or of the reference it holds) failed
+                marks = sum(1 for t, _ in r.get("rows", []) if t == MARK)
+                if marks >= 1:
+                    return (f"later-use-fails: the first iteration completes, iteration {marks + 1} fails reading the "
+                            f"just_once row / the reference it holds: {r.get('msg', '')[:140]}")
             return None
     iteration = 0
     first_ids = {}
